@@ -29,7 +29,9 @@ import (
 
 	"github.com/jamf/regatta/regattapb"
 	"github.com/jamf/regatta/security"
+	"google.golang.org/grpc"
 	"google.golang.org/grpc/codes"
+	"google.golang.org/grpc/credentials"
 	"google.golang.org/grpc/metadata"
 	"google.golang.org/grpc/status"
 )
@@ -469,5 +471,71 @@ func hTLS(out *Out) {
 			out.Line(fmt.Sprintf("tls %s %s %s %s %s", b2i(o.ca), b2i(o.cca), dash(o.cn), dash(o.host), desc), handshake(cfg, ca1.pem, c.cert))
 			out.Count("tls")
 		}
+	}
+	// the same decisions on a real leader PROCESS whose API listens on https: the flags of cmd/ have to
+	// reach security.TLSInfo (api.ca-filename, api.allowed-cn, api.allowed-hostname, api.client-cert-auth)
+	for _, o := range []opt{{true, false, "good", ""}, {true, false, "", "client.example"}, {true, false, "", ""}} {
+		args := []string{"--api.cert-filename=" + cf, "--api.key-filename=" + kf, "--api.ca-filename=" + caFile}
+		if o.cn != "" {
+			args = append(args, "--api.allowed-cn="+o.cn)
+		}
+		if o.host != "" {
+			args = append(args, "--api.allowed-hostname="+o.host)
+		}
+		p := startProcTLS("leader", args...)
+		pool := x509.NewCertPool()
+		pool.AppendCertsFromPEM(ca1.pem)
+		call := func(c *tls.Certificate) error {
+			cc := &tls.Config{RootCAs: pool, ServerName: "127.0.0.1"}
+			if c != nil {
+				cc.Certificates = []tls.Certificate{*c}
+			}
+			conn, err := grpc.NewClient(fmt.Sprintf("127.0.0.1:%d", p.api), grpc.WithTransportCredentials(credentials.NewTLS(cc)))
+			if err != nil {
+				return err
+			}
+			defer conn.Close()
+			ctx, cancel := context.WithTimeout(context.Background(), 5*time.Second)
+			defer cancel()
+			_, err = regattapb.NewClusterClient(conn).MemberList(ctx, &regattapb.MemberListRequest{})
+			return err
+		}
+		// readiness: a client that every one of these configurations accepts
+		var okClient *tls.Certificate
+		for _, c := range clients {
+			if c.name == "ca1-good" && o.host == "" || c.name == "ca1-san" && o.host != "" {
+				okClient = c.cert
+			}
+		}
+		ready := false
+		for i := 0; i < 600 && p.alive() && !ready; i++ {
+			if call(okClient) == nil {
+				ready = true
+			} else {
+				time.Sleep(100 * time.Millisecond)
+			}
+		}
+		if !ready {
+			out.Line(fmt.Sprintf("tlsproc %s %s", dash(o.cn), dash(o.host)), "err not-ready "+strings.ReplaceAll(p.logTail(), "\n", " | "))
+			p.stop()
+			continue
+		}
+		for _, c := range clients {
+			desc := "none"
+			if c.cert != nil {
+				valid := false
+				if o.host != "" {
+					valid = c.cert.Leaf.VerifyHostname(o.host) == nil
+				}
+				desc = fmt.Sprintf("cert %s %s %s", b2i(c.chains), hx([]byte(c.cert.Leaf.Subject.CommonName)), b2i(valid))
+			}
+			ans := "accept"
+			if err := call(c.cert); err != nil {
+				ans = "reject"
+			}
+			out.Line(fmt.Sprintf("tls %s %s %s %s %s", b2i(o.ca), b2i(o.cca), dash(o.cn), dash(o.host), desc), ans)
+			out.Count("tls_process")
+		}
+		p.stop()
 	}
 }
